@@ -25,7 +25,12 @@ func main() {
 	out := flag.String("out", "-", "summary JSON path")
 	replay := flag.String("replay", "", "replay file (JSON with an ops list)")
 	work := flag.String("work", "", "scratch directory (default: the system temporary directory)")
+	victim := flag.String("victim", "", "internal: run as the victim process of the disk component (JSON spec)")
 	flag.Parse()
+	if *victim != "" {
+		runVictim(*victim)
+		return
+	}
 	if *work != "" {
 		workRoot = *work
 	}
